@@ -448,13 +448,17 @@ def run(ctx, extra=None):
         if os.path.isdir(corpus):
             cs = [json.load(open(os.path.join(corpus, f))) for f in sorted(os.listdir(corpus)) if f.endswith('.json')]
             run_cases(ctx, env, [c.get('input', c) for c in cs], 'corpus')
+        import time
+        t0 = time.time()
         tcs = template_cases()
         if not ctx.thorough: tcs = ctx.rng.sample(tcs[:-1], 250) + tcs[-1:]
         run_cases(ctx, env, tcs, 'template')
-        n = ctx.scale(1500, 40000)
+        n = ctx.scale(1000, 40000)
         for chunk in range(0, n, 1000):
             run_cases(ctx, env, [gen_case(ctx.rng) for _ in range(min(1000, n - chunk))], 'random')
+        t1 = time.time()
         part2(ctx, env)
+        ctx.extra['part_seconds'] = {'tie+oracle': round(t1 - t0, 1), 'oracle-only (m2m, 1:1, prefetch)': round(time.time() - t1, 1)}
     finally:
         env.close()
 
